@@ -176,9 +176,9 @@ def run_refusal_oracle(outcome, tier, seed):
     # a TOML input of a little more than 2 MiB (the size at which detection from a reader is switched off; the format is
     # named here), with a line boundary exactly at 2 MiB: every key comes out, from a slice and from a reader
     big_lines = (2 << 20) // 16 + 2
-    big = b"".join(b"k%07d = %04d\n" % (i, i % 10000) for i in range(big_lines))
+    big = b"".join(b"k%07d = %04d\n" % (i, 1000 + i % 9000) for i in range(big_lines))
     assert len(big) == 16 * big_lines
-    big_v = {"k%07d" % i: i % 10000 for i in range(big_lines)}
+    big_v = {"k%07d" % i: 1000 + i % 9000 for i in range(big_lines)}
     for mode, sched in (("slice", None), ("reader", {"kind": "fixed", "n": 65536}), ("reader", {"kind": "fixed", "n": 50001})):
         c = {"input": shared.hx(big), "from": "toml", "mode": mode}
         if sched:
